@@ -360,6 +360,29 @@ pub fn run_c04(a: &Args, shared: &SharedReport) {
             check_family(r, &format!("network-{:?}", kind), &vals, vals.len() < 3000);
         });
     }
+    // 6b. a value's stream must not depend on what this thread hashed before (the containers keep a per-thread
+    //     scratch buffer): small sets/maps, then one with 150 entries, then the small ones again
+    mine(shared, &mut |r| {
+        let smalls: Vec<HashableHashSet<u8>> = subsets(3).iter().map(|s| set_of(s)).collect();
+        let small_maps: Vec<HashableHashMap<u8, u8>> = subsets(3).iter().map(|s| s.iter().map(|k| (*k, 1u8)).collect()).collect();
+        let before: Vec<Vec<u8>> = smalls.iter().map(log_of).chain(small_maps.iter().map(log_of)).collect();
+        let before_fp: Vec<u64> = smalls.iter().map(crate::hooks::fingerprint_of).chain(small_maps.iter().map(crate::hooks::fingerprint_of)).collect();
+        for big in [150usize, 300, 1000] {
+            let bs: HashableHashSet<u32> = (0..big as u32).collect();
+            let bm: HashableHashMap<u32, u32> = (0..big as u32).map(|k| (k, k)).collect();
+            let _ = log_of(&bs);
+            let _ = crate::hooks::fingerprint_of(&bm);
+            let after: Vec<Vec<u8>> = smalls.iter().map(log_of).chain(small_maps.iter().map(log_of)).collect();
+            let after_fp: Vec<u64> = smalls.iter().map(crate::hooks::fingerprint_of).chain(small_maps.iter().map(crate::hooks::fingerprint_of)).collect();
+            r.evaluations += after.len() as u64;
+            r.traces += after.len() as u64;
+            r.transitions += after.len() as u64;
+            if after != before || after_fp != before_fp {
+                r.violation("e4:hash-depends-on-thread-history", format!("after a collection of {big} entries was hashed on this thread, the small sets/maps feed a different stream to the hasher (or get another fingerprint) than before"), json!({"engine": "e4", "family": "history-dependence", "big": big}));
+            }
+        }
+        r.outcome("hash-history-independence".into());
+    });
     // 7. random choices
     mine(shared, &mut |r| {
         let lists: Vec<Option<Vec<u8>>> = vec![None, Some(vec![0]), Some(vec![1]), Some(vec![0, 1]), Some(vec![1, 0])];
